@@ -47,12 +47,15 @@ struct Case {
     info_only: bool,
     /// sub-key used in abort/timeout signatures (shape for the nesting family)
     sigkey: String,
+    /// control case: the template itself must compile cleanly, otherwise the generator is broken (machinery error)
+    must_ok: bool,
 }
 
 impl Case {
     fn new(tool: Tool, src: impl Into<Vec<u8>>, maps: &[&str], desc: impl Into<String>) -> Case {
-        Case { tool, src: src.into(), maps: maps.iter().map(|s| s.to_string()).collect(), desc: desc.into(), info_only: false, sigkey: String::new() }
+        Case { tool, src: src.into(), maps: maps.iter().map(|s| s.to_string()).collect(), desc: desc.into(), info_only: false, sigkey: String::new(), must_ok: false }
     }
+    fn control(mut self) -> Case { self.must_ok = true; self }
     fn hash64(&self) -> u64 {
         let mut h = std::collections::hash_map::DefaultHasher::new();
         (self.tool.kind as u8).hash(&mut h);
@@ -243,7 +246,7 @@ fn worker_loop(thorough: bool) {
                 e.0 += 1;
                 if c.src.len() + c.maps.iter().map(|m| m.len()).sum::<usize>() < e.1 { e.1 = c.src.len() + c.maps.iter().map(|m| m.len()).sum::<usize>(); e.2 = k; }
             }
-            if want_diag && v.class != "ok" { notes.push(json!({"index": k, "desc": c.desc, "class": v.class, "diag": v.diag.chars().take(3000).collect::<String>()})); }
+            if (want_diag || c.must_ok) && v.class != "ok" { notes.push(json!({"index": k, "desc": c.desc, "class": v.class, "diag": v.diag.chars().take(3000).collect::<String>()})); }
         }
         let fails: Vec<Value> = fails.into_iter().map(|(s, (n, len, k))| json!({"sig": s, "count": n, "len": len, "index": k})).collect();
         let _ = writeln!(o, "R {}", json!({"total": cases.len(), "from": from, "until": until, "classes": classes, "rows": rows, "fails": fails,
@@ -265,7 +268,7 @@ fn case_from_json(v: &Value) -> Option<Case> {
     let g = v["game"].as_str()?.parse::<Game>().ok()?;
     let src = if let Some(s) = v["src"].as_str() { s.as_bytes().to_vec() } else { unhex(v["src_hex"].as_str()?) };
     let maps = v["maps"].as_array().map(|a| a.iter().filter_map(|m| m.as_str().map(String::from)).collect()).unwrap_or_default();
-    Some(Case { tool: Tool::new(kind, g), src, maps, desc: v["desc"].as_str().unwrap_or("").into(), info_only: v["info_only"].as_bool().unwrap_or(false), sigkey: v["sigkey"].as_str().unwrap_or("").into() })
+    Some(Case { tool: Tool::new(kind, g), src, maps, desc: v["desc"].as_str().unwrap_or("").into(), info_only: v["info_only"].as_bool().unwrap_or(false), sigkey: v["sigkey"].as_str().unwrap_or("").into(), must_ok: false })
 }
 
 // =============================================================================================
@@ -926,7 +929,7 @@ fn map_cases(sub: &str, key: &str) -> Vec<Case> {
         "del" => {
             let vm = valid_map(t.kind);
             let body = valid_map_body(t.kind);
-            push(body, vm.clone(), "valid 20-line mapfile".into());
+            push(body, vm.clone(), "valid 20-line mapfile (control)".into());
             for (i, &(a, b)) in lex(&vm).iter().enumerate() { push(body, format!("{}{}", &vm[..a], &vm[b..]), format!("delete token {i} `{}`", &vm[a..b])); }
             let lines: Vec<&str> = vm.lines().collect();
             for i in 0..lines.len() {
@@ -1151,7 +1154,7 @@ fn family_of(item: &str) -> &str { item.split(':').next().unwrap_or("") }
 fn gen_cases(item: &str, thorough: bool) -> Vec<Case> {
     let parts: Vec<&str> = item.split(':').collect();
     let mut cases = match parts[0] {
-        "seed" => seeds().iter().map(|s| { let maps: Vec<&str> = s.map.iter().map(|m| m.as_str()).collect(); Case::new(tool(s.kind, s.game), s.src.clone(), &maps, format!("seed {}", s.name)) }).collect(),
+        "seed" => seeds().iter().map(|s| { let maps: Vec<&str> = s.map.iter().map(|m| m.as_str()).collect(); Case::new(tool(s.kind, s.game), s.src.clone(), &maps, format!("seed {}", s.name)).control() }).collect(),
         "tok" => tok_cases(parts[1].parse().unwrap(), parts[2], &seeds()),
         "byte" => byte_cases(parts[1].parse().unwrap(), parts[2], &seeds(), thorough),
         "lit" => { let c: usize = parts[2].parse().unwrap(); lit_cases(parts[1]).into_iter().skip(c * LIT_CHUNK).take(LIT_CHUNK).collect() },
@@ -1160,7 +1163,8 @@ fn gen_cases(item: &str, thorough: bool) -> Vec<Case> {
         "late" => late_cases(parts[1], parts[2]),
         _ => panic!("unknown item {item}"),
     };
-    for c in &mut cases {
+    for (i, c) in cases.iter_mut().enumerate() {
+        if i == 0 && (item.starts_with("map:del:") || (parts[0] == "late" && parts[2] == "alone") || (parts[0] == "lit" && parts[1] != "mission095" && parts[2] == "0") || item.starts_with("nest:paren:")) { c.must_ok = true; }
         c.sigkey = match parts[0] { "nest" => format!("nest-{}", parts[1]), "lit" | "map" | "late" => desc_key(&c.desc), f => f.to_string() };
     }
     cases
@@ -1187,7 +1191,7 @@ pub fn run(tier: &str) -> Report {
                 loop {
                     let i = next.fetch_add(1, Ordering::Relaxed);
                     if i >= all_items.len() || Instant::now() > deadline { break; }
-                    let acc = run_item(&mut slot, tier, &all_items[i], family_of(&all_items[i]) == "seed");
+                    let acc = run_item(&mut slot, tier, &all_items[i], false);
                     results.lock().unwrap()[i] = Some(acc);
                 }
                 if let Some(w) = slot.take() { drop(w.stdin); let mut c = w.child; let _ = c.wait(); }
@@ -1243,9 +1247,7 @@ pub fn run(tier: &str) -> Report {
         }
         for m in &acc.machinery { rep.machinery_errors.push(m.clone()); }
         for n in &acc.slow { let mut n = n.clone(); n["item"] = json!(item); slow.push(n); }
-        if fam == "seed" {
-            for n in &acc.notes { rep.machinery_errors.push(format!("seed does not compile cleanly: {} -> {} :: {}", n["desc"].as_str().unwrap_or(""), n["class"].as_str().unwrap_or(""), n["diag"].as_str().unwrap_or(""))); }
-        }
+        for n in &acc.notes { rep.machinery_errors.push(format!("control case does not compile cleanly: {} -> {} :: {}", n["desc"].as_str().unwrap_or(""), n["class"].as_str().unwrap_or(""), n["diag"].as_str().unwrap_or(""))); }
         if acc.max_ms.0 > slowest.0 { slowest = (acc.max_ms.0, item.clone(), acc.max_ms.1); }
         hwm = hwm.max(acc.hwm_kb);
     }
